@@ -454,7 +454,9 @@ func c04RacePrograms(tier string) []c04Prog {
 	}
 	for _, s := range []string{"{{ x == 'X' }}", "{{ l contains 2 }}", "{% if l.size > 2 and x %}t{% endif %}", "{{ l[0] }}{{ l[-1] }}{{ l.first }}", "{{ m.a }}{{ m['b'] }}{{ m.size }}",
 		"{{ d.k }}{{ d.l | join }}{{ dl | join }}", "{{ (1..3) | join }}", "{{ st.A }}{{ pst.C | join }}{{ pint }}", "{{ nosuch.a.b }}{{ x | nosuchfilter }}", "{{ x | append: x | upcase }}",
-		"{% for kv in m %}{{ kv[0] }}{% endfor %}", "{{ l | sort | reverse | uniq | compact | first }}"} {
+		"{% for kv in m %}{{ kv[0] }}{% endfor %}", "{{ l | sort | reverse | uniq | compact | first }}",
+		// outputs beyond typical buffer thresholds (64 KiB): results must still be private to each render
+		"{{ big }}", "{{ big }}{{ big | size }}{% for i in l %}{{ big | slice: i, 3 }}{% endfor %}"} {
 		add("expr", s)
 	}
 	var out []c04Prog
@@ -502,6 +504,7 @@ func C04RaceProg(tier string, i int) {
 		"x": "X", "l": []any{3, 1, 2, 1}, "lm": []any{map[string]any{"w": 2}, map[string]any{"w": 1}}, "m": map[string]any{"a": 1, "b": 2},
 		"d": raceDrop{map[string]any{"k": 1, "l": []any{2, 1}}}, "dl": []any{raceDrop{1}, &univ.PDrop{V: "s"}},
 		"st": univ.Plain{A: 1, C: []any{2, 1}}, "pst": &univ.Plain{A: 2, C: []any{1}}, "pint": &n,
+		"big": strings.Repeat("0123456789abcdef", 5000),
 	}
 	// the sequential baseline is computed on an engine of its own, so that every concurrent phase
 	// below starts on a cold engine (lazily built engine-wide state is raced on its first use)
@@ -557,6 +560,17 @@ func C04RaceProg(tier string, i int) {
 					} else {
 						out, rerr := tpls[k].Render(shared)
 						sig = Outcome{Out: string(out), Err: rerr}.Sig()
+					}
+					if len(sig) > 70000 {
+						// keep the result, let others run, and read it again: it must not have been overwritten
+						first := sig
+						runtime.Gosched()
+						out2, rerr2 := tpls[k].Render(map[string]any{"big": strings.Repeat(fmt.Sprint(g%10), 80000), "l": []any{1}})
+						_ = out2
+						_ = rerr2
+						if sig != first {
+							sig = "RESULT CHANGED AFTER IT WAS RETURNED"
+						}
 					}
 					if sig != solo[k] {
 						mu.Lock()
